@@ -358,7 +358,9 @@ func pruneDeleteFiles(prunableObjects []string, logger *tasklog.Logger) {
 		if mediaFile == os.DevNull {
 			continue
 		}
+		tools.VerifPoint("prune.unlink.pre")
 		err = os.Remove(mediaFile)
+		tools.VerifPoint("prune.unlink.post")
 		if err != nil {
 			problems.WriteString(tr.Tr.Get("Failed to remove file %v: %v", mediaFile, err))
 			problems.WriteRune('\n')
